@@ -240,7 +240,98 @@ func verifH_C10_range_mutation() {
 	verifAssert(len(cnt) == m.Len(), "C10/L/range-mutation/after/len")
 }
 
+// verifH_C10_range_delete_subset: n keys, an ARBITRARY subset (symbolic bit mask) is deleted after `at` visits, possibly
+// followed by an insert; the key list may be compacted while the iterator still holds its snapshot.
+func verifH_C10_range_delete_subset() {
+	n := verifCfg("c10_subset_n", 8)
+	strKeys := verifChoice("strkeys", 2) == 1
+	key := func(i int) Value {
+		if strKeys {
+			return String(string(rune('a' + i)))
+		}
+		return Int32(int32(i))
+	}
+	idx := func(v Value) int {
+		if strKeys {
+			return int(v.String()[0] - 'a')
+		}
+		return int(v.Int32())
+	}
+	var m Value
+	if strKeys {
+		m = NewMap(TypeString, TypeInt32, nil)
+	} else {
+		m = NewMap(TypeInt32, TypeInt32, nil)
+	}
+	for i := 0; i < n; i++ {
+		m.Set(key(i), Int32(int32(100+i)))
+	}
+	mask := int(verifInt16("mask"))
+	at := verifChoice("at", 4)
+	reinsert := verifChoice("reinsert", 2) == 1
+	visits := make([]int, n+1)
+	deletedBefore := make([]bool, n+1)
+	gone := make([]bool, n+1)
+	step := 0
+	next := m.Range()
+	for guard := 0; guard < 4*n+8; guard++ {
+		k, v, ok := next()
+		if !ok {
+			break
+		}
+		i := idx(k)
+		visits[i]++
+		verifAssert(!deletedBefore[i], "C10/L/range-subset/deleted-key-not-visited")
+		verifAssert(v.Int32() == int32(100+i), "C10/L/range-subset/value-of-key")
+		step++
+		if step == at+1 {
+			for j := 0; j < n; j++ {
+				if (mask>>uint(j))&1 == 1 {
+					if visits[j] == 0 {
+						deletedBefore[j] = true
+					}
+					gone[j] = true
+					m.Delete(key(j))
+				}
+			}
+			if reinsert {
+				m.Set(key(n), Int32(int32(100+n)))
+			}
+		}
+	}
+	for i := 0; i <= n; i++ {
+		verifAssert(visits[i] <= 1, "C10/L/range-subset/at-most-once")
+		if i < n && !gone[i] {
+			verifAssert(visits[i] == 1, "C10/L/range-subset/live-key-exactly-once")
+		}
+	}
+	live := 0
+	for i := 0; i < n; i++ {
+		if !gone[i] {
+			live++
+		}
+	}
+	if reinsert && step > at {
+		live++
+	}
+	verifAssert(m.Len() == live, "C10/L/range-subset/len")
+	cnt := make([]int, n+1)
+	total := 0
+	next = m.Range()
+	for guard := 0; guard < 4*n+8; guard++ {
+		k, _, ok := next()
+		if !ok {
+			break
+		}
+		cnt[idx(k)]++
+		total++
+		verifAssert(cnt[idx(k)] == 1, "C10/L/range-subset/after/once")
+	}
+	verifAssert(total == live, "C10/L/range-subset/after/len")
+}
+
 func init() {
+	verifHarnesses["verifH_C10_range_delete_subset"] = verifH_C10_range_delete_subset
 	verifHarnesses["verifH_C10_int"] = verifH_C10_int
 	verifHarnesses["verifH_C10_string"] = verifH_C10_string
 	verifHarnesses["verifH_C10_float"] = verifH_C10_float
